@@ -12,7 +12,7 @@ from ..model import AnalysisError, FunctionInfo, bind_args
 from ..roles import roles_of
 from ..symb import Translator, Untranslatable, is_zero
 from ..terms import call_name, canon, conjuncts, const_num, guard_canon, guard_of, norm_stmt
-from .common import iter_stores, kw, reaching_assignments, self_attr_of
+from .common import iter_stores, kw, reaching_assignments, self_attr_of, pos
 from .points import FilterSummary, PointAnalysis
 
 EXPLANATION = (
@@ -274,7 +274,7 @@ def check(ctx):
                 zname = mins[0].args[0].id
                 zdefs = [(t, v, s, k) for t, v, s, k in iter_stores(ss.node) if isinstance(t, ast.Name) and t.id == zname and isinstance(v, ast.Call) and acq in [x for x in prog.resolve_call(ss, v) if isinstance(x, FunctionInfo)]]
                 # the acquisition that defines z inside the non-empty branch
-                ok = any(k == "assign[0]" and canon(v.args[0]) == rows and s.lineno < mins[0].lineno for t, v, s, k in zdefs)
+                ok = any(k == "assign[0]" and canon(v.args[0]) == rows and pos(s) < pos(mins[0]) for t, v, s, k in zdefs)
             others = [x for x in idefs if call_name(x) != "np.argmin" and not (isinstance(x, ast.Constant) and x.value is None)]
             fallback_ok = all("np.random.randint" in canon(x) for x in others)
             ok = ok and fallback_ok
